@@ -131,3 +131,145 @@ package codecs
 //@   loop 0: invariant frag_bytes [C11]: forall j, q :: 0 <= j && j < len(payloads) && 0 <= q && q < len(payloads[j]) - usingHeaderSize ==> payloads[j][usingHeaderSize + q] == payload[j * maxFragmentSize + q]
 //@   loop 0: decreases payloadDataRemaining
 //@ end
+
+// ===== C14: H265 payload structures (RFC 7798 sections 1.1.4, 4.4.1-4.4.4), from the RFC's diagrams =====
+//
+// NAL unit / payload header: |F|Type(6)|LayerId(6)|TID(3)|
+//@ spec (H265NALUHeader).F
+//@   ensures bit [C14]: result0 <==> bits(h, 15, 15) == 1
+//@ end
+//@ spec (H265NALUHeader).Type
+//@   ensures field [C14]: int(result0) == bits(h, 14, 9)
+//@ end
+//@ spec (H265NALUHeader).LayerID
+//@   ensures field [C14]: int(result0) == bits(h, 8, 3)
+//@ end
+//@ spec (H265NALUHeader).TID
+//@   ensures field [C14]: int(result0) == bits(h, 2, 0)
+//@ end
+//@ spec (H265NALUHeader).IsTypeVCLUnit
+//@   ensures vcl [C14]: result0 <==> bits(h, 14, 9) < 32
+//@ end
+//@ spec (H265NALUHeader).IsAggregationPacket
+//@   ensures t48 [C14]: result0 <==> bits(h, 14, 9) == 48
+//@ end
+//@ spec (H265NALUHeader).IsFragmentationUnit
+//@   ensures t49 [C14]: result0 <==> bits(h, 14, 9) == 49
+//@ end
+//@ spec (H265NALUHeader).IsPACIPacket
+//@   ensures t50 [C14]: result0 <==> bits(h, 14, 9) == 50
+//@ end
+// FU header: |S|E|FuType(6)|
+//@ spec (H265FragmentationUnitHeader).S
+//@   ensures bit [C14]: result0 <==> bits(h, 7, 7) == 1
+//@ end
+//@ spec (H265FragmentationUnitHeader).E
+//@   ensures bit [C14]: result0 <==> bits(h, 6, 6) == 1
+//@ end
+//@ spec (H265FragmentationUnitHeader).FuType
+//@   ensures field [C14]: int(result0) == bits(h, 5, 0)
+//@ end
+// PACI fields: |A|cType(6)|PHSsize(5)|F0|F1|F2|Y|
+//@ spec (*H265PACIPacket).A
+//@   ensures bit [C14]: result0 <==> bits(p.paciHeaderFields, 15, 15) == 1
+//@ end
+//@ spec (*H265PACIPacket).CType
+//@   ensures field [C14]: int(result0) == bits(p.paciHeaderFields, 14, 9)
+//@ end
+//@ spec (*H265PACIPacket).PHSsize
+//@   ensures field [C14]: int(result0) == bits(p.paciHeaderFields, 8, 4)
+//@ end
+//@ spec (*H265PACIPacket).F0
+//@   ensures bit [C14]: result0 <==> bits(p.paciHeaderFields, 3, 3) == 1
+//@ end
+//@ spec (*H265PACIPacket).F1
+//@   ensures bit [C14]: result0 <==> bits(p.paciHeaderFields, 2, 2) == 1
+//@ end
+//@ spec (*H265PACIPacket).F2
+//@   ensures bit [C14]: result0 <==> bits(p.paciHeaderFields, 1, 1) == 1
+//@ end
+//@ spec (*H265PACIPacket).Y
+//@   ensures bit [C14]: result0 <==> bits(p.paciHeaderFields, 0, 0) == 1
+//@ end
+// TSCI: |TL0PICIDX(8)|IrapPicID(8)|S|E|RES(6)| carried in the first three PHES octets
+//@ spec (*H265PACIPacket).TSCI
+//@   requires bits(p.paciHeaderFields, 8, 4) <= len(p.phes)
+//@   ensures absent [C14]: (bits(p.paciHeaderFields, 3, 3) == 0 || bits(p.paciHeaderFields, 8, 4) < 3) ==> result0 == nil
+//@   ensures present [C14]: bits(p.paciHeaderFields, 3, 3) == 1 && bits(p.paciHeaderFields, 8, 4) >= 3 ==> result0 != nil && fresh(result0) && int(*result0) / 256 == int(p.phes[0]) * 65536 + int(p.phes[1]) * 256 + int(p.phes[2])
+//@ end
+//@ spec (H265TSCI).TL0PICIDX
+//@   ensures field [C14]: int(result0) == bits(h, 31, 24)
+//@ end
+//@ spec (H265TSCI).IrapPicID
+//@   ensures field [C14]: int(result0) == bits(h, 23, 16)
+//@ end
+//@ spec (H265TSCI).S
+//@   ensures bit [C14]: result0 <==> bits(h, 15, 15) == 1
+//@ end
+//@ spec (H265TSCI).E
+//@   ensures bit [C14]: result0 <==> bits(h, 14, 14) == 1
+//@ end
+//@ spec (H265TSCI).RES
+//@   ensures field [C14]: int(result0) == bits(h, 13, 8)
+//@ end
+
+//@ pure h265Type(p) = bits(p[0], 6, 1)
+//@ pure bool h265Hdr(p) = len(p) > 2 && bits(p[0], 7, 7) == 0
+
+// single NAL unit packet: payload header, optional DONL, NAL unit payload
+//@ spec (*H265SingleNALUnitPacket).Unmarshal
+//@   modifies p.*
+//@   ensures nilp [C14,C09]: payload == nil ==> errIs(err, errNilPacket)
+//@   ensures short [C14,C09]: payload != nil && len(payload) <= 2 ==> errIs(err, errShortPacket)
+//@   ensures corrupted [C14]: len(payload) > 2 && bits(payload[0], 7, 7) == 1 ==> errIs(err, errH265CorruptedPacket)
+//@   ensures accept [C14,C09]: (err == nil) <==> (h265Hdr(payload) && h265Type(payload) != 48 && h265Type(payload) != 49 && h265Type(payload) != 50 && (old(p.mightNeedDONL) ==> len(payload) > 4))
+//@   ensures header [C14,C09]: err == nil ==> int(p.payloadHeader) == be16(payload, 0)
+//@   ensures no_donl [C14,C09]: err == nil && !old(p.mightNeedDONL) ==> sameobj(p.payload, payload) && off(p.payload) == off(payload) + 2 && len(p.payload) == len(payload) - 2
+//@   ensures donl [C14,C09]: err == nil && old(p.mightNeedDONL) ==> p.donl != nil && fresh(p.donl) && int(*p.donl) == be16(payload, 2) && sameobj(p.payload, payload) && off(p.payload) == off(payload) + 4 && len(p.payload) == len(payload) - 4
+//@ end
+
+// fragmentation unit: payload header (type 49), FU header, DONL only when S is set, FU payload
+//@ spec (*H265FragmentationUnitPacket).Unmarshal
+//@   modifies p.*
+//@   ensures nilp [C14,C09]: payload == nil ==> errIs(err, errNilPacket)
+//@   ensures short [C14,C09]: payload != nil && len(payload) <= 3 ==> errIs(err, errShortPacket)
+//@   ensures corrupted [C14]: len(payload) > 3 && bits(payload[0], 7, 7) == 1 ==> errIs(err, errH265CorruptedPacket)
+//@   ensures accept [C14,C09]: (err == nil) <==> (len(payload) > 3 && bits(payload[0], 7, 7) == 0 && h265Type(payload) == 49 && (old(p.mightNeedDONL) && bits(payload[2], 7, 7) == 1 ==> len(payload) > 5))
+//@   ensures header [C14,C09]: err == nil ==> int(p.payloadHeader) == be16(payload, 0) && int(p.fuHeader) == int(payload[2])
+//@   ensures no_donl [C14,C09]: err == nil && !(old(p.mightNeedDONL) && bits(payload[2], 7, 7) == 1) ==> sameobj(p.payload, payload) && off(p.payload) == off(payload) + 3 && len(p.payload) == len(payload) - 3
+//@   ensures donl [C14,C09]: err == nil && old(p.mightNeedDONL) && bits(payload[2], 7, 7) == 1 ==> p.donl != nil && fresh(p.donl) && int(*p.donl) == be16(payload, 3) && sameobj(p.payload, payload) && off(p.payload) == off(payload) + 5 && len(p.payload) == len(payload) - 5
+//@ end
+
+// PACI: payload header (type 50), PACI fields, PHES of PHSsize octets, payload
+//@ spec (*H265PACIPacket).Unmarshal
+//@   modifies p.*
+//@   ensures nilp [C14,C09]: payload == nil ==> errIs(err, errNilPacket)
+//@   ensures short [C14,C09]: payload != nil && len(payload) <= 4 ==> errIs(err, errShortPacket)
+//@   ensures accept [C14,C09]: (err == nil) <==> (len(payload) > 4 && bits(payload[0], 7, 7) == 0 && h265Type(payload) == 50 && len(payload) - 4 >= bits(be16(payload, 2), 8, 4) + 1)
+//@   ensures fields [C14,C09]: err == nil ==> int(p.payloadHeader) == be16(payload, 0) && int(p.paciHeaderFields) == be16(payload, 2)
+//@   ensures phes [C14,C09]: err == nil && bits(be16(payload, 2), 8, 4) > 0 ==> sameobj(p.phes, payload) && off(p.phes) == off(payload) + 4 && len(p.phes) == bits(be16(payload, 2), 8, 4)
+//@   ensures rest [C14,C09]: err == nil ==> sameobj(p.payload, payload) && off(p.payload) == off(payload) + 4 + bits(be16(payload, 2), 8, 4) && len(p.payload) == len(payload) - 4 - bits(be16(payload, 2), 8, 4)
+//@ end
+
+// aggregation packet: payload header (type 48), optional DONL, then size-prefixed units (DOND before every later one)
+//@ spec (*H265AggregationPacket).Unmarshal
+//@   modifies p.*
+//@   loop 0: decreases len(payload)
+//@   loop 0: invariant inside [C14,C09]: sameobj(payload, old(payload)) && off(payload) >= off(old(payload)) && off(payload) + len(payload) == off(old(payload)) + len(old(payload)) && firstUnit != nil && fresh(firstUnit)
+//@   loop 0: invariant units_fresh [C14,C09]: fresh(units) && len(units) >= 0 && p.mightNeedDONL == old(p.mightNeedDONL)
+//@   loop 0: invariant first_kept [C14,C09]: !p.mightNeedDONL ==> int(firstUnit.nalUnitSize) == be16(old(payload), 2) && sameobj(firstUnit.nalUnit, old(payload)) && off(firstUnit.nalUnit) == off(old(payload)) + 4 && len(firstUnit.nalUnit) == be16(old(payload), 2)
+//@   loop 0: invariant first_donl_kept [C14,C09]: p.mightNeedDONL ==> firstUnit.donl != nil && fresh(firstUnit.donl) && int(*firstUnit.donl) == be16(old(payload), 2) && int(firstUnit.nalUnitSize) == be16(old(payload), 4) && sameobj(firstUnit.nalUnit, old(payload)) && off(firstUnit.nalUnit) == off(old(payload)) + 6 && len(firstUnit.nalUnit) == be16(old(payload), 4)
+//@   ensures nilp [C14,C09]: payload == nil ==> errIs(err, errNilPacket)
+//@   ensures short [C14,C09]: payload != nil && len(payload) <= 2 ==> errIs(err, errShortPacket)
+//@   ensures wrongtype [C14]: h265Hdr(payload) && h265Type(payload) != 48 ==> errIs(err, errInvalidH265PacketType)
+//@   ensures first [C14,C09]: err == nil && !old(p.mightNeedDONL) ==> p.firstUnit != nil && int(p.firstUnit.nalUnitSize) == be16(payload, 2) && sameobj(p.firstUnit.nalUnit, payload) && off(p.firstUnit.nalUnit) == off(payload) + 4 && len(p.firstUnit.nalUnit) == be16(payload, 2)
+//@   ensures first_donl [C14,C09]: err == nil && old(p.mightNeedDONL) ==> p.firstUnit != nil && p.firstUnit.donl != nil && int(*p.firstUnit.donl) == be16(payload, 2) && int(p.firstUnit.nalUnitSize) == be16(payload, 4) && sameobj(p.firstUnit.nalUnit, payload) && off(p.firstUnit.nalUnit) == off(payload) + 6 && len(p.firstUnit.nalUnit) == be16(payload, 4)
+//@   ensures two_or_more [C14]: err == nil ==> len(p.otherUnits) >= 1
+//@ end
+
+//@ spec (*H265Packet).IsPartitionHead
+//@   ensures head [C14,C09]: result0 <==> (len(payload) >= 3 && (h265Type(payload) == 49 ==> bits(payload[2], 7, 7) == 1))
+//@ end
+
+//@ property C14 functions: (*H265Packet).Unmarshal
+//@ property C09 functions: (*H265Packet).Unmarshal
